@@ -1,9 +1,709 @@
 package main
 
-import "runtime"
+import (
+	"bufio"
+	"encoding/json"
+	"flag"
+	"fmt"
+	"math/rand"
+	"os"
+	"runtime"
+	"runtime/debug"
+	"strconv"
+	"strings"
+	"sync"
+
+	art "github.com/Clement-Jean/go-art"
+)
 
 func envGC(tr *Trace) {
 	runtime.GC()
 	tr.start("GC")
 	tr.emit()
+}
+
+// ---- value types (C18) ----------------------------------------------------------
+
+type ptrVal struct {
+	A int
+	S string
+}
+type bigVal struct {
+	ID  int
+	Pad [25]uint64
+}
+type richVal struct {
+	P *int
+	L []string
+	M string
+}
+
+func bigOf(i int) bigVal {
+	var b bigVal
+	b.ID = i
+	for j := range b.Pad {
+		b.Pad[j] = uint64(i)*0x9e3779b97f4a7c15 + uint64(j)
+	}
+	return b
+}
+
+// withVT instantiates f for the named value type.
+func withVT(name string, f func(build func(kind string, raw []RawKey) TreeDriver)) {
+	switch name {
+	case "int":
+		f(func(k string, r []RawKey) TreeDriver { return NewDriverV(k, r, intVT) })
+	case "string":
+		vt := valType[string]{"string", func(i int) string { return "v" + strconv.Itoa(i) }, func(s string) int {
+			n, err := strconv.Atoi(strings.TrimPrefix(s, "v"))
+			if err != nil || !strings.HasPrefix(s, "v") {
+				return -1
+			}
+			return n
+		}}
+		f(func(k string, r []RawKey) TreeDriver { return NewDriverV(k, r, vt) })
+	case "ptr":
+		vt := valType[*ptrVal]{"ptr", func(i int) *ptrVal { return &ptrVal{A: i, S: strconv.Itoa(i)} }, func(p *ptrVal) int {
+			if p == nil || p.S != strconv.Itoa(p.A) {
+				return -1
+			}
+			return p.A
+		}}
+		f(func(k string, r []RawKey) TreeDriver { return NewDriverV(k, r, vt) })
+	case "bytes":
+		vt := valType[[]byte]{"bytes", func(i int) []byte { return []byte("v" + strconv.Itoa(i)) }, func(b []byte) int {
+			s := string(b)
+			n, err := strconv.Atoi(strings.TrimPrefix(s, "v"))
+			if err != nil || !strings.HasPrefix(s, "v") {
+				return -1
+			}
+			return n
+		}}
+		f(func(k string, r []RawKey) TreeDriver { return NewDriverV(k, r, vt) })
+	case "zero":
+		vt := valType[struct{}]{"zero", func(i int) struct{} { return struct{}{} }, func(struct{}) int { return 1 }}
+		f(func(k string, r []RawKey) TreeDriver { return NewDriverV(k, r, vt) })
+	case "big":
+		vt := valType[bigVal]{"big", bigOf, func(b bigVal) int {
+			if b != bigOf(b.ID) {
+				return -1
+			}
+			return b.ID
+		}}
+		f(func(k string, r []RawKey) TreeDriver { return NewDriverV(k, r, vt) })
+	case "rich":
+		vt := valType[richVal]{"rich", func(i int) richVal {
+			x := i
+			return richVal{P: &x, L: []string{strconv.Itoa(i), "x"}, M: fmt.Sprint("m", i)}
+		}, func(v richVal) int {
+			if v.P == nil || len(v.L) != 2 || v.L[0] != strconv.Itoa(*v.P) || v.L[1] != "x" || v.M != fmt.Sprint("m", *v.P) {
+				return -1
+			}
+			return *v.P
+		}}
+		f(func(k string, r []RawKey) TreeDriver { return NewDriverV(k, r, vt) })
+	default:
+		fatal("unknown value type %q", name)
+	}
+}
+
+var valueTypes = []string{"int", "string", "ptr", "bytes", "zero", "big", "rich"}
+
+// cmdGC (C18): value-type matrix under aggressive collection. Built with checkptr by the check.
+func cmdGC(args []string) {
+	fs := flag.NewFlagSet("gc", flag.ExitOnError)
+	kind := fs.String("kind", "alpha/string", "")
+	uname := fs.String("u", "random", "")
+	vtn := fs.String("vt", "ptr", "")
+	seed := fs.Int64("seed", 1, "")
+	out := fs.String("out", "gc.ndjson", "")
+	n := fs.Int("n", 3, "")
+	length := fs.Int("len", 80, "")
+	stats := fs.String("stats", "", "")
+	fs.Parse(args)
+	debug.SetGCPercent(1)
+	withVT(*vtn, func(build func(string, []RawKey) TreeDriver) {
+		d := build(*kind, rawFor(*kind, *uname, "q", *seed))
+		tr := NewTrace(*out)
+		rec := NewRec(d, 1, tr, *seed)
+		r := rand.New(rand.NewSource(*seed*31 + 5))
+		uni := d.Universe()
+		var ins []int
+		for i, e := range uni {
+			if !e.Probe {
+				ins = append(ins, i+1)
+			}
+		}
+		bt := Battery{Search: true, Iter: true, MinMax: true}
+		// garbage pressure: allocate and drop while the tree is used
+		var junk [][]byte
+		for h := 0; h < *n; h++ {
+			if h > 0 {
+				rec.Clear()
+			}
+			for i := 0; i < *length && !rec.Dead; i++ {
+				if r.Intn(100) < 60 {
+					rec.Insert(ins[r.Intn(len(ins))])
+				} else {
+					rec.Delete(ins[r.Intn(len(ins))])
+				}
+				junk = append(junk, make([]byte, 64+r.Intn(4096)))
+				if len(junk) > 32 {
+					junk = junk[16:]
+				}
+				if i%3 == 0 {
+					envGC(tr)
+				}
+				if i%4 == 3 {
+					rec.RunBattery(bt)
+				}
+			}
+			envGC(tr)
+			envGC(tr)
+			rec.RunBattery(bt)
+		}
+		tr.Close()
+		writeStats(*stats, Stats{Cmd: "gc", Kind: d.Name() + "/" + *vtn, Lines: tr.Lines, Ops: rec.Ops, Segments: *n,
+			Digests: len(rec.Digests), Panics: rec.Panics, Samples: []string{d.Name() + " values=" + *vtn}})
+	})
+}
+
+// ---- multi-tree interleavings (C12) -----------------------------------------------------
+
+// cmdMulti replays interleaved histories [[t,op,k],...] over several real trees of
+// mixed kinds on ONE goroutine; k indexes the insertable keys of tree t.
+func cmdMulti(args []string) {
+	fs := flag.NewFlagSet("multi", flag.ExitOnError)
+	kinds := fs.String("kinds", "uint8:fan1,alpha/string:fan1x,int8:fan1,alpha/bytes:fan2", "kind:universe per tree")
+	in := fs.String("in", "", "interleavings from the model (ndjson {hist:[[t,op,k]...]}); empty = generate")
+	seed := fs.Int64("seed", 1, "")
+	out := fs.String("out", "multi.ndjson", "")
+	n := fs.Int("n", 2, "generated interleavings when -in is empty")
+	length := fs.Int("len", 1500, "")
+	batEvery := fs.Int("batevery", 25, "")
+	audit := fs.Bool("audit", true, "pool audit (diagnostic note lines)")
+	stats := fs.String("stats", "", "")
+	fs.Parse(args)
+	var ds []TreeDriver
+	for _, ku := range strings.Split(*kinds, ",") {
+		k, u, _ := strings.Cut(ku, ":")
+		ds = append(ds, buildDriver(k, u, "q", *seed))
+	}
+	tr := NewTrace(*out)
+	st := Stats{Cmd: "multi", Kind: *kinds}
+	bt := Battery{Search: false, Iter: true, MinMax: true, Dump: true}
+	btFull := Battery{Search: true, Iter: true, MinMax: true, Dump: true}
+	run := func(hist [][3]int) {
+		tr.Reset()
+		recs := make([]*Rec, len(ds))
+		ins := make([][]int, len(ds))
+		for i, d := range ds {
+			recs[i] = NewRec(d, i+1, tr, *seed+int64(i))
+			recs[i].DumpAll = false
+			for j, e := range d.Universe() {
+				if !e.Probe {
+					ins[i] = append(ins[i], j+1)
+				}
+			}
+		}
+		for step, o := range hist {
+			t := o[0] - 1
+			if t < 0 || t >= len(ds) {
+				fatal("tree index %d out of range", o[0])
+			}
+			k := ins[t][(o[2]-1)%len(ins[t])]
+			recs[t].DumpAll = step%7 == 0
+			if o[1] == 1 {
+				recs[t].Insert(k)
+			} else {
+				recs[t].Delete(k)
+			}
+			if recs[t].Ops > 0 && recs[t].D.Size() == 0 {
+				recs[t].RunBattery(btFull) // emptied: must behave like a new tree from now on
+			}
+			if (step+1)%*batEvery == 0 {
+				for _, r := range recs {
+					r.RunBattery(bt)
+				}
+				if *audit {
+					seen, dirty := art.VerifPoolAudit()
+					tr.Note(fmt.Sprintf("pool audit seen=%v dirty=%v", seen, dirty))
+					st.Extra["pool_dirty"] += dirty[0] + dirty[1] + dirty[2] + dirty[3]
+					st.Extra["pool_seen"] += seen[0] + seen[1] + seen[2] + seen[3]
+				}
+			}
+		}
+		for _, r := range recs {
+			r.RunBattery(btFull)
+			st.Ops += r.Ops
+			st.Panics += r.Panics
+			st.Digests += len(r.Digests)
+		}
+		st.Segments++
+	}
+	st.Extra = map[string]int{}
+	if *in != "" {
+		f, err := os.Open(*in)
+		if err != nil {
+			fatal("%v", err)
+		}
+		sc := bufio.NewScanner(f)
+		sc.Buffer(make([]byte, 1<<20), 1<<28)
+		for sc.Scan() {
+			var e struct {
+				Hist [][3]int `json:"hist"`
+			}
+			if json.Unmarshal(sc.Bytes(), &e) != nil || len(e.Hist) == 0 {
+				continue
+			}
+			run(e.Hist)
+			if len(st.Samples) < 2 {
+				st.Samples = append(st.Samples, fmt.Sprint(e.Hist[:min(len(e.Hist), 30)]))
+			}
+		}
+		f.Close()
+	} else {
+		r := rand.New(rand.NewSource(*seed))
+		for h := 0; h < *n; h++ {
+			// per-tree ramps with different periods: one tree grows while another shrinks
+			var hist [][3]int
+			present := make([]map[int]bool, len(ds))
+			up := make([]bool, len(ds))
+			for i := range present {
+				present[i] = map[int]bool{}
+				up[i] = i%2 == 0
+			}
+			for s := 0; s < *length; s++ {
+				t := r.Intn(len(ds))
+				ni := 0
+				for _, e := range ds[t].Universe() {
+					if !e.Probe {
+						ni++
+					}
+				}
+				if len(present[t]) >= ni {
+					up[t] = false
+				}
+				if len(present[t]) == 0 {
+					up[t] = true
+				}
+				doIns := up[t]
+				if r.Intn(8) == 0 {
+					doIns = !doIns
+				}
+				k := 1 + r.Intn(ni)
+				if doIns {
+					present[t][k] = true
+					hist = append(hist, [3]int{t + 1, 1, k})
+				} else {
+					// prefer a present key
+					for kk := range present[t] {
+						k = kk
+						break
+					}
+					delete(present[t], k)
+					hist = append(hist, [3]int{t + 1, 2, k})
+				}
+			}
+			run(hist)
+			if len(st.Samples) < 2 {
+				st.Samples = append(st.Samples, fmt.Sprint(hist[:30]))
+			}
+		}
+	}
+	tr.Close()
+	st.Lines = tr.Lines
+	writeStats(*stats, st)
+}
+
+// ---- caller memory (C13) -----------------------------------------------------------------
+
+type arenaState struct {
+	buf    []byte // full capacity
+	before []byte
+	used   bool
+}
+
+// cmdArena: []byte keys handed over as sub-slices of arenas (spare capacity with live
+// data, exactly full, one reused scanner-style buffer); after each call the arena is
+// compared with its content before the call, then scribbled over.
+func cmdArena(args []string) {
+	fs := flag.NewFlagSet("arena", flag.ExitOnError)
+	kind := fs.String("kind", "alpha/bytes", "alpha/bytes or collation/bytes/<collator>")
+	uname := fs.String("u", "random", "")
+	seed := fs.Int64("seed", 1, "")
+	out := fs.String("out", "arena.ndjson", "")
+	n := fs.Int("n", 4, "")
+	length := fs.Int("len", 60, "")
+	stats := fs.String("stats", "", "")
+	fs.Parse(args)
+	d := buildDriver(*kind, *uname, "q", *seed)
+	setter, ok := d.(interface{ setPassKeyBytes(func([]byte) []byte) })
+	if !ok {
+		fatal("kind %s has no []byte keys", *kind)
+	}
+	tr := NewTrace(*out)
+	r := rand.New(rand.NewSource(*seed*13 + 1))
+	var cur []*arenaState
+	scanner := make([]byte, 64) // one buffer reused for successive keys
+	mode := 0
+	setter.setPassKeyBytes(func(k []byte) []byte {
+		var a *arenaState
+		var key []byte
+		m := mode % 3
+		if m == 2 && len(cur) > 0 {
+			m = 0 // a second key of the same call (Range) cannot share the scanner buffer
+		}
+		switch m {
+		case 0: // sub-slice with spare capacity holding live caller data
+			off := r.Intn(4)
+			buf := make([]byte, off+len(k)+1+r.Intn(8))
+			for i := range buf {
+				buf[i] = byte(0xA0 + i%16)
+			}
+			copy(buf[off:], k)
+			key = buf[off : off+len(k)]
+			a = &arenaState{buf: buf}
+		case 1: // exactly full
+			buf := make([]byte, len(k))
+			copy(buf, k)
+			key = buf
+			a = &arenaState{buf: buf}
+		default: // scanner idiom
+			for i := range scanner {
+				scanner[i] = byte(0xC0 + i%8)
+			}
+			if len(k) > len(scanner) {
+				scanner = make([]byte, 2*len(k))
+			}
+			copy(scanner, k)
+			key = scanner[:len(k)]
+			a = &arenaState{buf: scanner}
+		}
+		a.before = cloneB(a.buf[:cap(a.buf)])
+		cur = append(cur, a)
+		return key
+	})
+	rec := NewRec(d, 1, tr, *seed)
+	arenas := 0
+	rec.PostCall = func() {
+		for _, a := range cur {
+			tr.start("Arena")
+			tr.fBytes("before", a.before)
+			tr.fBytes("after", a.buf[:cap(a.buf)])
+			tr.emit()
+			arenas++
+			// the caller now reuses its buffer
+			for i := range a.buf[:cap(a.buf)] {
+				a.buf[:cap(a.buf)][i] = byte(0x55 ^ i)
+			}
+			tr.start("Scribble")
+			tr.emit()
+		}
+		cur = cur[:0]
+	}
+	rec.NoBatch = true
+	uni := d.Universe()
+	var ins []int
+	for i, e := range uni {
+		if !e.Probe {
+			ins = append(ins, i+1)
+		}
+	}
+	bt := Battery{Search: true, Iter: true, MinMax: true, Range: 6, Prefix: 4, Dump: true}
+	for h := 0; h < *n; h++ {
+		if h > 0 {
+			rec.Clear()
+		}
+		for i := 0; i < *length && !rec.Dead; i++ {
+			mode = r.Intn(3)
+			if r.Intn(100) < 65 {
+				rec.Insert(ins[r.Intn(len(ins))])
+			} else {
+				rec.Delete(1 + r.Intn(len(uni)))
+			}
+			if i%5 == 4 {
+				rec.RunBattery(bt)
+			}
+		}
+		rec.RunBattery(bt)
+	}
+	tr.Close()
+	writeStats(*stats, Stats{Cmd: "arena", Kind: d.Name(), Lines: tr.Lines, Ops: rec.Ops, Segments: *n, Digests: len(rec.Digests),
+		Panics: rec.Panics, Extra: map[string]int{"arena_checks": arenas}, Samples: []string{d.Name() + ": sub-slice / exact / scanner-buffer keys"}})
+}
+
+// ---- concurrency (C16) ---------------------------------------------------------------------
+
+// cmdConc: G goroutines each run a history on a PRIVATE tree (heavy grow/shrink churn so
+// the shared pools are busy), then many goroutines query one quiescent SHARED tree.
+// Every goroutine writes its own trace. Built with -race by the check.
+func cmdConc(args []string) {
+	fs := flag.NewFlagSet("conc", flag.ExitOnError)
+	seed := fs.Int64("seed", 1, "")
+	out := fs.String("out", "conc", "trace prefix: out.<g>.ndjson")
+	g := fs.Int("g", 8, "")
+	length := fs.Int("len", 400, "")
+	procs := fs.Int("procs", 4, "")
+	shared := fs.String("shared", "alpha/string:fan2,uint16:random,float64:random", "kinds of the shared read-only trees")
+	stats := fs.String("stats", "", "")
+	fs.Parse(args)
+	runtime.GOMAXPROCS(*procs)
+	privKinds := []string{"uint8:fan1", "alpha/string:fan1x", "int8:fan1", "alpha/bytes:fan2", "uint16:random", "float32:random", "collation/string/und:text", "compound/u8+u8:tuple"}
+	var wg sync.WaitGroup
+	type res struct{ lines, ops, panics int }
+	results := make([]res, 0)
+	var mu sync.Mutex
+	files := 0
+	// phase 1: private trees
+	for i := 0; i < *g; i++ {
+		ku := privKinds[i%len(privKinds)]
+		k, u, _ := strings.Cut(ku, ":")
+		d := buildDriver(k, u, "q", *seed+int64(i))
+		tr := NewTrace(fmt.Sprintf("%s.%d.ndjson", *out, files))
+		files++
+		wg.Add(1)
+		go func(i int, d TreeDriver, tr *Trace) {
+			defer wg.Done()
+			rec := NewRec(d, 1, tr, *seed+int64(i))
+			rec.DumpAll = false
+			r := rand.New(rand.NewSource(*seed*101 + int64(i)))
+			var ins []int
+			for j, e := range d.Universe() {
+				if !e.Probe {
+					ins = append(ins, j+1)
+				}
+			}
+			up := true
+			cnt := 0
+			bt := Battery{Iter: true, MinMax: true}
+			for s := 0; s < *length && !rec.Dead; s++ {
+				if cnt >= len(ins) {
+					up = false
+				}
+				if cnt <= 0 {
+					up = true
+				}
+				doIns := up
+				if r.Intn(7) == 0 {
+					doIns = !doIns
+				}
+				k := ins[r.Intn(len(ins))]
+				if doIns {
+					rec.Insert(k)
+					cnt++
+				} else {
+					rec.Delete(k)
+					cnt--
+				}
+				if s%5 == 0 {
+					runtime.Gosched()
+				}
+				if s%40 == 39 {
+					rec.DumpAll = true
+					rec.RunBattery(bt)
+					rec.DumpAll = false
+				}
+			}
+			rec.RunBattery(Battery{Search: true, Iter: true, MinMax: true, Dump: true})
+			tr.Close()
+			mu.Lock()
+			results = append(results, res{tr.Lines, rec.Ops, rec.Panics})
+			mu.Unlock()
+		}(i, d, tr)
+	}
+	wg.Wait()
+	// phase 2: shared quiescent trees, concurrent readers. The builder's lines are copied
+	// in front of every reader's own lines so that each trace is self-contained.
+	for si, ku := range strings.Split(*shared, ",") {
+		k, u, _ := strings.Cut(ku, ":")
+		d := buildDriver(k, u, "q", *seed+int64(si))
+		base := fmt.Sprintf("%s.shared%d.build.ndjson", *out, si)
+		btr := NewTrace(base)
+		brec := NewRec(d, 1, btr, *seed)
+		brec.DumpAll = false
+		r := rand.New(rand.NewSource(*seed + int64(si)))
+		var ins []int
+		for j, e := range d.Universe() {
+			if !e.Probe {
+				ins = append(ins, j+1)
+			}
+		}
+		for s := 0; s < 3*len(ins); s++ {
+			if r.Intn(4) > 0 {
+				brec.Insert(ins[r.Intn(len(ins))])
+			} else {
+				brec.Delete(ins[r.Intn(len(ins))])
+			}
+		}
+		btr.Close()
+		prefix, _ := os.ReadFile(base)
+		os.Remove(base)
+		var wg2 sync.WaitGroup
+		for i := 0; i < *g; i++ {
+			tr := NewTrace(fmt.Sprintf("%s.%d.ndjson", *out, files))
+			files++
+			tr.w.Write(prefix)
+			tr.Lines += strings.Count(string(prefix), "\n")
+			wg2.Add(1)
+			go func(i int, tr *Trace) {
+				defer wg2.Done()
+				// a reader has its own Rec (own PRNG, own log) over the SAME driver and tree
+				rec := &Rec{D: d, T: 1, Tr: tr, R: rand.New(rand.NewSource(*seed*7 + int64(i))), Digests: map[string]struct{}{}}
+				bt := Battery{Search: true, Iter: true, MinMax: true, TopK: true, Range: 8, Prefix: 4, IterChk: 1}
+				for s := 0; s < 6; s++ {
+					rec.RunBattery(bt)
+					runtime.Gosched()
+				}
+				tr.Close()
+				mu.Lock()
+				results = append(results, res{tr.Lines, rec.Ops, rec.Panics})
+				mu.Unlock()
+			}(i, tr)
+		}
+		wg2.Wait()
+	}
+	st := Stats{Cmd: "conc", Segments: files, Extra: map[string]int{"files": files, "procs": *procs, "goroutines": *g}}
+	for _, r := range results {
+		st.Lines += r.lines
+		st.Ops += r.ops
+		st.Panics += r.panics
+	}
+	st.Samples = []string{fmt.Sprintf("%d goroutines on private trees (%s), then %d readers on each shared tree (%s)", *g, strings.Join(privKinds[:min(*g, len(privKinds))], " "), *g, *shared)}
+	writeStats(*stats, st)
+}
+
+// ---- retained memory (C17) ------------------------------------------------------------------
+
+func liveHeap() int {
+	runtime.GC()
+	runtime.GC()
+	var m runtime.MemStats
+	runtime.ReadMemStats(&m)
+	return int(m.HeapAlloc)
+}
+
+// cmdMem: long histories on a bounded key set in a dedicated process; checkpoints log the
+// live heap after two forced collections.
+func cmdMem(args []string) {
+	fs := flag.NewFlagSet("mem", flag.ExitOnError)
+	kind := fs.String("kind", "alpha/string", "")
+	uname := fs.String("u", "random", "")
+	seed := fs.Int64("seed", 1, "")
+	out := fs.String("out", "mem.ndjson", "")
+	ops := fs.Int("ops", 100000, "operations per phase")
+	stats := fs.String("stats", "", "")
+	fs.Parse(args)
+	d := buildDriver(*kind, *uname, "t", *seed)
+	tr := NewTrace(*out)
+	rec := NewRec(d, 1, tr, *seed)
+	rec.DumpAll = false
+	r := rand.New(rand.NewSource(*seed))
+	uni := d.Universe()
+	var ins []int
+	content := 0
+	for i, e := range uni {
+		if !e.Probe {
+			ins = append(ins, i+1)
+			content += len(e.O) + len(e.T)
+		}
+	}
+	cp := func(phase string, first bool, done int, grown int) {
+		h := liveHeap()
+		tr.start("Checkpoint")
+		tr.fInt("t", 1)
+		tr.fStr("phase", phase)
+		tr.fBool("first", first)
+		tr.fInt("ops", done)
+		tr.fInt("heap", h)
+		tr.fInt("grown", grown)
+		tr.emit()
+	}
+	empty0 := liveHeap()
+	_ = empty0
+	cp("empty", true, 0, 0)
+	for _, k := range ins {
+		rec.Insert(k)
+	}
+	rec.RunBattery(Battery{Search: true, Iter: true})
+	// phase 1: queries on an unchanged tree (not logged one by one: 10^5..10^7 calls)
+	cp("queries", true, 0, 0)
+	for c := 0; c < 4; c++ {
+		for i := 0; i < *ops/4; i++ {
+			k := 1 + r.Intn(len(uni))
+			switch i % 8 {
+			case 0:
+				d.Min()
+			case 1:
+				if d.HasPrefix() {
+					for range d.Seq("Prefix", k, 0, 0) {
+						break
+					}
+				}
+			case 2:
+				if d.HasRange() && d.RangeOK(k, k) {
+					for range d.Seq("Range", k, 1+r.Intn(len(uni)), 0) {
+						break
+					}
+				}
+			default:
+				d.Search(k)
+			}
+		}
+		cp("queries", false, (c+1)**ops/4, 0)
+	}
+	// phase 2: overwrites of present keys
+	cp("overwrites", true, 0, 0)
+	for c := 0; c < 4; c++ {
+		for i := 0; i < *ops/4; i++ {
+			d.Insert(ins[r.Intn(len(ins))], 1+i%1000)
+		}
+		cp("overwrites", false, (c+1)**ops/4, 0)
+	}
+	// phase 3: delete / re-insert churn over the bounded key set
+	cp("churn", true, 0, 0)
+	for c := 0; c < 4; c++ {
+		for i := 0; i < *ops/4; i++ {
+			k := ins[r.Intn(len(ins))]
+			if r.Intn(2) == 0 {
+				d.Delete(k)
+			} else {
+				d.Insert(k, 1+i%1000)
+			}
+		}
+		cp("churn", false, (c+1)**ops/4, content)
+	}
+	// the unlogged phases end with every key present again (as the logged state has it);
+	// then every key is overwritten through the recorder so that values agree too
+	for _, k := range ins {
+		d.Insert(k, 1)
+	}
+	for _, k := range ins {
+		rec.Insert(k)
+	}
+	rec.RunBattery(Battery{Search: true, Iter: true})
+	// phase 4: delete everything: only a small constant may remain
+	for _, k := range ins {
+		rec.Delete(k)
+	}
+	rec.RunBattery(Battery{Iter: true, Dump: true})
+	tr.start("Checkpoint")
+	tr.fInt("t", 1)
+	tr.fStr("phase", "emptied")
+	tr.fBool("first", false)
+	tr.fInt("ops", len(ins))
+	tr.fInt("heap", liveHeap())
+	tr.fInt("grown", 0)
+	tr.emit()
+	runtime.KeepAlive(d)
+	tr.Close()
+	writeStats(*stats, Stats{Cmd: "mem", Kind: d.Name(), Lines: tr.Lines, Ops: 3 * *ops, Segments: 1, Digests: len(rec.Digests),
+		Extra: map[string]int{"keys": len(ins), "content_bytes": content}, Samples: []string{fmt.Sprintf("%s: %d keys, %d ops per phase (queries, overwrites, churn), then emptied", d.Name(), len(ins), *ops)}})
+}
+
+func init() {
+	extraCmds["gc"] = cmdGC
+	extraCmds["multi"] = cmdMulti
+	extraCmds["arena"] = cmdArena
+	extraCmds["conc"] = cmdConc
+	extraCmds["mem"] = cmdMem
 }
